@@ -2,8 +2,8 @@
   Non-vacuity examples and negation witnesses for C16 (evaluated by the kernel).
 -/
 import FcProofs.Props.C16
-namespace Fc
-open Spec
+namespace Fc.C16
+open Fc Fc.Spec Fc.C03
 
 /-! ### F7 — ImageMesh.equals compares the spacing with the coordinate-scaled absolute tolerance -/
 
@@ -12,7 +12,7 @@ def one : Int := 2 ^ 1074
 def idBasis : List (List Int) := [[one, 0, 0], [0, one, 0], [0, 0, one]]
 
 /-- two cells in x, origin x = 1024, spacing 1 — with its DEFAULT tolerances (rel 1e-8, abs 1.026e-5) -/
-def f7a0 : ImageGrid := ⟨[2, 0, 0], [1024 * one, 0, 0], [one, one, one], idBasis, Gen.meshDefaultRelTol, 0⟩
+def f7a0 : ImageGrid := ⟨[2, 0, 0], [1024 * one, 0, 0], [one, one, one], idBasis, Gen.C16.meshDefaultRelTol, 0⟩
 def f7a : ImageGrid := { f7a0 with abs := f7a0.defaultAbsTol.getD 0 }
 /-- the same grid with x-spacing 1 + 2^-17 (7.6e-6, below the absolute tolerance) -/
 def f7b0 : ImageGrid := { f7a0 with spacing := [one + 2 ^ 1057, one, one] }
@@ -60,10 +60,10 @@ theorem C16_F14_witness :
 /-! ### non-vacuity -/
 
 /-- a 2x1 pixel grid as rectilinear mesh, and the same grid with one ordinate moved by 2^-30 (within 1e-8·2) -/
-def rA : RectGrid := ⟨[2, 1, 0], [[0, one, 2 * one], [0, one], []], Gen.meshDefaultRelTol, 2 ^ 1048⟩
-def rB : RectGrid := ⟨[2, 1, 0], [[0, one + 2 ^ 1044, 2 * one], [0, one], [0]], Gen.meshDefaultRelTol, 2 ^ 1048⟩
+def rA : RectGrid := ⟨[2, 1, 0], [[0, one, 2 * one], [0, one], []], Gen.C16.meshDefaultRelTol, 2 ^ 1048⟩
+def rB : RectGrid := ⟨[2, 1, 0], [[0, one + 2 ^ 1044, 2 * one], [0, one], [0]], Gen.C16.meshDefaultRelTol, 2 ^ 1048⟩
 /-- … and with a different constant in the flat direction (the F6 witness, fixed) -/
-def rC : RectGrid := ⟨[2, 1, 0], [[0, one, 2 * one], [0, one], [5 * one]], Gen.meshDefaultRelTol, 2 ^ 1048⟩
+def rC : RectGrid := ⟨[2, 1, 0], [[0, one, 2 * one], [0, one], [5 * one]], Gen.C16.meshDefaultRelTol, 2 ^ 1048⟩
 
 example : rA.ok = true ∧ rB.ok = true ∧ rC.ok = true := by decide +kernel
 -- hypothesis of C16_structured_sound_rect is satisfiable with different parameters; conclusion observable
@@ -76,7 +76,7 @@ example : rectEquals rA rC = .ok false ∧ meshEqualWith rA.rel rA.abs rA.toMesh
 example : rA.toMesh.cells = [("PIXEL", [[0, 1, 3, 4], [1, 2, 4, 5]])] ∧ rA.toMesh.numPoints = 6 := by decide +kernel
 
 /-- structured mesh of the same grid: QUAD cells (reordered corners) -/
-def sA : StructGrid := ⟨[2, 1, 0], 3, rA.toMesh.points, Gen.meshDefaultRelTol, 2 ^ 1048⟩
+def sA : StructGrid := ⟨[2, 1, 0], 3, rA.toMesh.points, Gen.C16.meshDefaultRelTol, 2 ^ 1048⟩
 example : sA.ok = true ∧ sA.toMesh.cells = [("QUAD", [[0, 1, 4, 3], [1, 2, 5, 4]])] := by decide +kernel
 -- mixed representations: rectilinear (PIXEL) vs structured (QUAD) of the same grid are equal in both orders
 -- (pixel~quad, corner sets), an instance of C16_symm with receiverTol = false
@@ -84,11 +84,11 @@ example : receiverTol (.rect rA) (.struct sA) = false ∧
     equals (.rect rA) (.struct sA) = .ok true ∧ equals (.struct sA) (.rect rA) = .ok true := by decide +kernel
 -- one-sided type block (F2 fixed): quad-only vs quad + triangle is unequal in both orders, never an exception
 def qOnly : TMesh := ⟨⟨2, [[0, 0], [one, 0], [one, one], [0, one], [2 * one, 0]], [("QUAD", [[0, 1, 2, 3]])]⟩,
-  Gen.meshDefaultRelTol, 2 ^ 1048⟩
+  Gen.C16.meshDefaultRelTol, 2 ^ 1048⟩
 def qTri : TMesh := ⟨⟨2, [[0, 0], [one, 0], [one, one], [0, one], [2 * one, 0]],
-  [("QUAD", [[0, 1, 2, 3]]), ("TRIANGLE", [[1, 4, 2]])]⟩, Gen.meshDefaultRelTol, 2 ^ 1048⟩
-example : qOnly.mesh.wfEq = true ∧ qTri.mesh.wfEq = true ∧
+  [("QUAD", [[0, 1, 2, 3]]), ("TRIANGLE", [[1, 4, 2]])]⟩, Gen.C16.meshDefaultRelTol, 2 ^ 1048⟩
+example : (wfEq qOnly.mesh) = true ∧ (wfEq qTri.mesh) = true ∧
     equals (.explicit qOnly) (.explicit qTri) = .ok false ∧ equals (.explicit qTri) (.explicit qOnly) = .ok false := by
   decide +kernel
 
-end Fc
+end Fc.C16
